@@ -48,3 +48,11 @@ Theorem C02_fragment_never_panics : forall cfg pause is,
   exists outs, l_run cfg (init_layout pause) is = Ok outs.
 Proof. exact fragment_never_panics. Qed.
 Print Assumptions C02_fragment_never_panics.
+
+(* the same through the kanata model (one millisecond = tick_ms(1)): no Panic / OutOfFuel outcome for any covered history *)
+From KV Require Import Kanata.Glue Proofs.C04Kanata Proofs.C01Kanata.
+Theorem C02_kanata_fragment_never_panics : forall cfg pause is,
+  kfrag cfg -> hist_ok (kc_layout cfg) 0 is = true -> physical is = true ->
+  exists outs, k_run cfg (k_init (init_layout pause)) is = Ok outs.
+Proof. exact kanata_fragment_never_panics. Qed.
+Print Assumptions C02_kanata_fragment_never_panics.
